@@ -195,6 +195,23 @@ async fn run_scenario(line: String) -> Vec<String> {
     let w2 = w.clone();
     let prog_again = prog.clone();
     let root = create_root(move || build(&prog, &w2));
+    // `(early ID)` as the first step: the scope is disposed right after the tree has been built, BEFORE the executor has polled
+    // anything (an effect re-run twice in one synchronous block, a page left at once); the line after it replaces the initial one
+    let mut schedule = schedule;
+    if let Some(first) = schedule.first() {
+        let s = first.list();
+        if s[0].atom() == "early" {
+            let id: u32 = s[1].num();
+            let h = w.borrow().handles.get(&id).copied();
+            if let Some(h) = h {
+                let r = panic::catch_unwind(AssertUnwindSafe(|| root.run_in(|| h.dispose())));
+                if r.is_err() {
+                    log("PANIC:at-dispose".to_string());
+                }
+            }
+            schedule.remove(0);
+        }
+    }
     settle().await;
     out.push(observe(&w, root));
     for step in schedule {
